@@ -238,5 +238,32 @@ PROPS["C07"] = dict(
     assumptions=["inputs are bounded to 64 KiB", "the reference encoders only matter for reaching deep decoder states, not for the verdict"],
 )
 
+# additions of the third seeding wave (DESIGN.md 7.9), appended to the summary rule of each property
+_WAVE3 = {
+    "C01": "messages relayed / re-sent as the same object (also with a new timestamp and type), the client's first message sent right behind C2, io.EOF delivered with the last bytes of the session, "
+           "payloads cut from larger application buffers (unchanged afterwards), messages kept uncopied across later reads",
+    "C02": "the reading endpoint announces its own chunk size meanwhile; chunk-stream ids related by +-1/64/256/one bit; io.EOF delivered with the last bytes; messages kept uncopied across later reads",
+    "C03": "packets edited in place after Size()/MarshalBinary (built and decoded), up to 20000 requests outstanding at once, _result as AMF3 command, received messages and decoded packets kept across later traffic",
+    "C04": "the transport follows the wire with the reference de-chunker and acts when a request is complete (requests larger than the writer's buffer, announced chunk sizes up to 2^24), "
+           "_result as AMF3 command, a transport that takes every byte of the last request and still reports an error",
+    "C05": "near-grammar byte strings (valid encodings damaged by 1-3 edits): whatever the decoder accepts still satisfies Size() == bytes consumed",
+    "C06": "encodings held uncopied while another value is marshalled; values edited in place and marshalled again",
+    "C08": "deadline-kind transport errors (net.Error with Timeout()) at every read call, a read that does not return counts as a violation, chunks larger than the writer's buffer under write faults, nestings up to 400 layers",
+    "C09": "tag bodies cut from one application buffer (unchanged afterwards), io.EOF delivered with the last bytes, tag bodies kept uncopied across later reads",
+    "C10": "tags and frames kept uncopied across later Encode/Decode calls on the same and on other packagers",
+    "C11": "a call-sequence model of ONE ADTS object (SetASC / Encode / Decode / ASC() in any order), frames kept uncopied, raw blocks cut from one application buffer",
+    "C12": "results of MarshalBinary held while another value is marshalled; NAL sizes 2^16+-1, 2^24+-1, 2^25+3 enumerated in both tiers",
+    "C13": "deadlines honoured on a harness-owned clock: idle periods after a handshake timeout, pings with deadlines and automatic pongs (a deadline left armed fails the next read/write)",
+    "C14": "non-UTF-8 close reasons of every length 1..123, the application's own Close sent before reading, io.EOF delivered with the last bytes",
+    "C15": "Close sent through every write API; a deterministic schedule where control senders give up waiting for the write lock while the data writer is held inside a transport write",
+    "C16": "payloads of 70 KB - 1 MiB (5 MiB thorough), compressible and not; one Signer reconfigured (embedded JWK, nonce source) between signatures",
+    "C17": "marker-free runs and strings longer than the reader's buffers (4 KiB - 70 KB), several readers alive at once, reads after the end of a document, io.EOF delivered with the last bytes",
+    "C18": "Printf formats ending in a newline, argument slices with spare capacity (unchanged afterwards), aliases derived from a parent that carries an id of its own",
+    "C19": "plain errors naming 3xx statuses, application errors that also name a status, success values of 64 KiB - 5 MiB (32 MiB thorough)",
+    "C20": "clock origins incl. the zero time.Time and the Unix epoch",
+}
+for _k, _v in _WAVE3.items():
+    PROPS[_k]["rule"] += "; third wave: " + _v
+
 NOT_APPLICABLE = {}
 HOOK_COMMITS = ["ba4d95f68dd5a0290f21f6bb6c969f905e9412da", "a27187fa8bc3d23076469a07766dcee96b1efc22"]
